@@ -6,8 +6,8 @@ import "sort"
 // value-dependent branches or that matter to the query-language front ends ("ext").
 var coreAtoms = []string{
 	`'`, `\`, `\'`, `''`, `\\'`, "\x00", "\n", `--`, `/*`, `*/`, `#`, `;`, `%`, `_`, `$$`, "`", `"`, `)`, `{{`,
-	"é", // multi-byte
-	"\xff",   // invalid UTF-8
+	"é",    // multi-byte
+	"\xff", // invalid UTF-8
 }
 
 var extAtoms = []string{
@@ -19,7 +19,7 @@ var criticalAtoms = []string{`'`, `\`, `"`, "`", `--`, "\n", "\x00", `%`, `)`}
 
 // hostileSet: all atoms; all concatenations of two atoms with at least one core atom (quick) or of any two atoms
 // (thorough); thorough adds all concatenations of three core atoms.  Deterministic order, duplicates
-// (e.g. ' + ' == '') removed.
+// (e.g. ' + ' == ”) removed.
 func hostileSet(thorough bool) []string {
 	all := append(append([]string{}, coreAtoms...), extAtoms...)
 	isCore := map[string]bool{}
